@@ -332,7 +332,9 @@ class TcpConn:
             log.v("C11", "register-version", f"RegisterSession protocol version {enc.u16(body, 0)} options {enc.u16(body, 2)} (must be 1, 0)", frame[:40])
             return self.reply({"kind": "register"}, enc.build_frame(enc.CMD_REGISTER, 0, body, status=0x69, context=h["context"]))
         if not t.policy.accept_register:
-            return self.reply({"kind": "register"}, enc.build_frame(enc.CMD_REGISTER, 0, body, status=0x02, context=h["context"]))
+            # a refusing target grants nothing; the handle field of its error reply is not a grant (it may hold anything)
+            junk = t.rng.choice([0, 0, t.rng.getrandbits(32) | 1])
+            return self.reply({"kind": "register"}, enc.build_frame(enc.CMD_REGISTER, junk, body, status=t.rng.choice([0x02, 0x69, 0x01]), context=h["context"]))
         if self.session is not None:
             return self.reply({"kind": "register"}, enc.build_frame(enc.CMD_REGISTER, self.session, body, context=h["context"]))
         self.session = t.new_session_handle()
